@@ -2,8 +2,644 @@
 
 package main
 
-import "github.com/semihalev/sdns/internal/verif/vlib"
+import (
+	"bytes"
+	"encoding/base32"
+	"encoding/hex"
+	"fmt"
+	"sort"
+	"strings"
 
-func execNsec3(f []string) vlib.Res { return vlib.Res{Impl: "bad-op"} }
+	"github.com/miekg/dns"
+	"github.com/semihalev/sdns/internal/dnsutil"
+	"github.com/semihalev/sdns/internal/verif/vlib"
+	"github.com/semihalev/sdns/middleware/resolver/dnssec"
+)
 
-func genNsec3Case(r *vlib.R, emit func(string)) int { return genNsecCase(r, emit) }
+var b32 = base32.HexEncoding.WithPadding(base32.NoPadding)
+
+// rec3 is one NSEC3 record on op lines:
+//   <ownerlabel>|<parent>|<next>|<hashlen>|<alg>|<flags>|<iter>|<salt>|<cls>|<types>
+// ownerlabel: H<40 hex> (label = base32hex of that hash, case per 'u' suffix) or
+// X<label token> (a label that is not a 32-character base32hex string);
+// next: H<40 hex> or B<hex of the NextDomain text> (malformed);
+// salt: hex, "-" (empty) or !<hex of the Salt text> (malformed / length lie).
+type rec3 struct {
+	ownerHash []byte // nil when malformed
+	ownerLab  string // the label text as sent
+	parent    name
+	next      []byte // nil when malformed
+	nextText  string
+	hashLen   int
+	alg       int
+	flags     int
+	iter      int
+	salt      []byte
+	saltText  string
+	saltBad   bool
+	cls       uint16
+	types     []uint16
+}
+
+func (r rec3) String() string {
+	ol := "X" + name{r.ownerLab}.String()
+	if r.ownerHash != nil {
+		ol = "H" + hex.EncodeToString(r.ownerHash)
+		if r.ownerLab != strings.ToLower(r.ownerLab) {
+			ol += "u"
+		}
+	}
+	nx := "B" + hex.EncodeToString([]byte(r.nextText))
+	if r.next != nil {
+		nx = "H" + hex.EncodeToString(r.next)
+	}
+	st := vlib.Hex(r.salt)
+	if r.saltBad {
+		st = "!" + hex.EncodeToString([]byte(r.saltText))
+	}
+	return fmt.Sprintf("%s|%s|%s|%d|%d|%d|%d|%s|%d|%s", ol, r.parent, nx, r.hashLen, r.alg, r.flags, r.iter, st, r.cls, typesStr(r.types))
+}
+
+func parseRec3(s string) rec3 {
+	p := strings.Split(s, "|")
+	if len(p) != 10 {
+		panic("bad rec3 " + s)
+	}
+	var r rec3
+	switch p[0][0] {
+	case 'H':
+		h := p[0][1:]
+		upper := strings.HasSuffix(h, "u")
+		h = strings.TrimSuffix(h, "u")
+		r.ownerHash = vlib.UnHex(h)
+		r.ownerLab = strings.ToLower(b32.EncodeToString(r.ownerHash))
+		if upper {
+			r.ownerLab = strings.ToUpper(r.ownerLab)
+		}
+	default:
+		r.ownerLab = parseName(p[0][1:])[0]
+	}
+	r.parent = parseName(p[1])
+	if p[2][0] == 'H' {
+		r.next = vlib.UnHex(p[2][1:])
+		r.nextText = b32.EncodeToString(r.next)
+	} else {
+		r.nextText = string(vlib.UnHex(p[2][1:]))
+	}
+	r.hashLen, r.alg, r.flags, r.iter = atoi(p[3]), atoi(p[4]), atoi(p[5]), atoi(p[6])
+	if strings.HasPrefix(p[7], "!") {
+		r.saltBad = true
+		r.saltText = string(vlib.UnHex(p[7][1:]))
+	} else {
+		r.salt = vlib.UnHex(p[7])
+		r.saltText = hex.EncodeToString(r.salt)
+	}
+	r.cls = uint16(atoi(p[8]))
+	r.types = parseTypes(p[9])
+	return r
+}
+
+func (r rec3) owner() name { return r.parent.child(r.ownerLab) }
+
+func (r rec3) rr() *dns.NSEC3 {
+	saltLen := len(r.salt)
+	if r.saltBad {
+		saltLen = 2 // whatever the text is, the length field disagrees or the text is not hex
+	}
+	return &dns.NSEC3{
+		Hdr:        dns.RR_Header{Name: r.owner().pres(), Rrtype: dns.TypeNSEC3, Class: r.cls, Ttl: 300},
+		Hash:       uint8(r.alg),
+		Flags:      uint8(r.flags),
+		Iterations: uint16(r.iter),
+		SaltLength: uint8(saltLen),
+		Salt:       r.saltText,
+		HashLength: uint8(r.hashLen),
+		NextDomain: r.nextText,
+		TypeBitMap: append([]uint16(nil), r.types...),
+	}
+}
+
+func recs3Str(rs []rec3) string {
+	if len(rs) == 0 {
+		return "-"
+	}
+	parts := make([]string, len(rs))
+	for i, r := range rs {
+		parts[i] = r.String()
+	}
+	return strings.Join(parts, ";")
+}
+
+// ---- the genuine ring of a zone (RFC 5155 section 7.1) ----
+
+type zone3 struct {
+	z      *zone
+	salt   []byte
+	iter   int
+	optOut bool
+	opted  map[string]bool // insecure delegations left out of the ring
+}
+
+var (
+	curZ3   *zone3
+	curSet3 []rec3
+	curRR3  []dns.RR
+)
+
+func hashOf(n name, salt []byte, iter int) []byte {
+	s := dns.HashName(n.pres(), dns.SHA1, uint16(iter), hex.EncodeToString(salt))
+	b, err := b32.DecodeString(strings.ToUpper(s))
+	if err != nil || len(b) != 20 {
+		panic("HashName " + n.String() + " -> " + s)
+	}
+	return b
+}
+
+// hashedNames: every authoritative owner and every empty non-terminal, minus
+// the opted-out insecure delegations and the ENTs that only they keep alive.
+func (z3 *zone3) hashedNames() []*node {
+	z := z3.z
+	keep := map[string]*node{}
+	var order []string
+	for _, nd := range z.auth() {
+		if z3.opted[nd.n.key()] {
+			continue
+		}
+		if _, ok := keep[nd.n.key()]; !ok {
+			keep[nd.n.key()] = nd
+			order = append(order, nd.n.key())
+		}
+		for k := len(z.apex); k < len(nd.n); k++ {
+			a := nd.n.suffix(k)
+			if _, ok := keep[a.key()]; !ok && z.find(a) == nil {
+				keep[a.key()] = &node{n: a, types: map[uint16]bool{}}
+				order = append(order, a.key())
+			}
+		}
+	}
+	var out []*node
+	for _, k := range order {
+		out = append(out, keep[k])
+	}
+	return out
+}
+
+func (z3 *zone3) ring() []rec3 {
+	hn := z3.hashedNames()
+	type hx struct {
+		h  []byte
+		nd *node
+	}
+	var hs []hx
+	for _, nd := range hn {
+		hs = append(hs, hx{hashOf(nd.n, z3.salt, z3.iter), nd})
+	}
+	sort.Slice(hs, func(i, j int) bool { return bytes.Compare(hs[i].h, hs[j].h) < 0 })
+	fl := 0
+	if z3.optOut {
+		fl = 1
+	}
+	var out []rec3
+	for i, x := range hs {
+		ts := sortedTypes(x.nd.types)
+		// RRSIG/NSEC bits of the NSEC model do not apply: NSEC3 bitmaps list the
+		// owner's types (+RRSIG when anything authoritative is there), never NSEC.
+		var t3 []uint16
+		for _, t := range ts {
+			if t != tNSEC {
+				t3 = append(t3, t)
+			}
+		}
+		lab := strings.ToLower(b32.EncodeToString(x.h))
+		out = append(out, rec3{ownerHash: x.h, ownerLab: lab, parent: z3.z.apex, next: hs[(i+1)%len(hs)].h,
+			nextText: b32.EncodeToString(hs[(i+1)%len(hs)].h), hashLen: 20, alg: 1, flags: fl, iter: z3.iter,
+			salt: z3.salt, saltText: hex.EncodeToString(z3.salt), cls: z3.z.cls, types: t3})
+	}
+	return out
+}
+
+func sameRec3(a, b rec3) bool {
+	return bytes.Equal(a.ownerHash, b.ownerHash) && a.ownerHash != nil && a.parent.fold().eq(b.parent.fold()) &&
+		bytes.Equal(a.next, b.next) && a.next != nil && a.hashLen == b.hashLen && a.alg == b.alg && a.flags == b.flags &&
+		a.iter == b.iter && bytes.Equal(a.salt, b.salt) && !a.saltBad && !b.saltBad && a.cls == b.cls && sameTypeSet(a.types, b.types)
+}
+
+func usable3(r rec3) bool { return r.alg == 1 && r.iter <= 150 && (r.flags == 0 || r.flags == 1) }
+
+// classify the current set against the genuine ring:
+// "genuine" (all records genuine), "mixed" (genuine + at least one usable
+// record of another chain / class / zone / malformed: must be refused),
+// "skippable" (genuine + only unusable strangers: the exact validators skip
+// those, the aggressive classifier refuses), "other".
+func (z3 *zone3) setKind(rs []rec3) string {
+	g := z3.ring()
+	foreignUsable, foreignUnusable, gen := 0, 0, 0
+	for _, r := range rs {
+		ok := false
+		for _, x := range g {
+			if sameRec3(r, x) {
+				ok = true
+				break
+			}
+		}
+		switch {
+		case ok:
+			gen++
+		case !usable3(r):
+			foreignUnusable++
+		default:
+			// a usable stranger: is it of a different chain (params / class / zone / malformed)?
+			diff := r.iter != z3.iter || !bytes.Equal(r.salt, z3.salt) || r.saltBad || r.cls != z3.z.cls ||
+				!r.parent.fold().eq(z3.z.apex) || r.ownerHash == nil || r.next == nil || r.hashLen != 20
+			if !diff {
+				return "other" // same chain parameters but not a genuine record: forged
+			}
+			foreignUsable++
+		}
+	}
+	switch {
+	case foreignUsable > 0 && gen > 0:
+		return "mixed"
+	case foreignUsable > 0:
+		return "other"
+	case foreignUnusable > 0:
+		return "skippable"
+	}
+	return "genuine"
+}
+
+// parameters the implementation will hash with: those of the first usable record.
+func setParams(rs []rec3) ([]byte, int) {
+	for _, r := range rs {
+		if usable3(r) && !r.saltBad {
+			return r.salt, r.iter
+		}
+	}
+	if curZ3 != nil {
+		return curZ3.salt, curZ3.iter
+	}
+	return nil, 0
+}
+
+// hashTable: every name the validators may hash for q under signer.
+func hashTable(q, signer name) string {
+	salt, iter := setParams(curSet3)
+	q = q.fold()
+	var parts []string
+	seen := map[string]bool{}
+	add := func(n name) {
+		if len(n.wire()) > 255 || seen[n.key()] {
+			return
+		}
+		seen[n.key()] = true
+		parts = append(parts, n.String()+"="+hex.EncodeToString(hashOf(n, salt, iter)))
+	}
+	for k := 0; k <= len(q); k++ {
+		a := q.suffix(k)
+		add(a)
+		add(a.child("*"))
+	}
+	_ = signer
+	return strings.Join(parts, ",")
+}
+
+func secStr(secure bool, err error) string {
+	if err != nil {
+		return errStr(err)
+	}
+	return "ok secure=" + vlib.B(secure)
+}
+
+// coverIn: the record of rs whose span strictly covers h (oracle's own scan).
+func coverIn(rs []rec3, h []byte) *rec3 {
+	for i := range rs {
+		r := &rs[i]
+		if r.ownerHash == nil || r.next == nil || !usable3(*r) {
+			continue
+		}
+		on, ho, hn := bytes.Compare(r.ownerHash, r.next), bytes.Compare(h, r.ownerHash), bytes.Compare(h, r.next)
+		var c bool
+		switch {
+		case on == 0:
+			c = ho != 0
+		case on < 0:
+			c = ho > 0 && hn < 0
+		default:
+			c = ho > 0 || hn < 0
+		}
+		if c {
+			return r
+		}
+	}
+	return nil
+}
+
+func matchIn(rs []rec3, h []byte) *rec3 {
+	for i := range rs {
+		if usable3(rs[i]) && bytes.Equal(rs[i].ownerHash, h) {
+			return &rs[i]
+		}
+	}
+	return nil
+}
+
+// restsOnOptOut: does the proof the validator must have used for q go through
+// an opt-out span?  (deepest matched ancestor, then the cover of its child)
+func restsOnOptOut(q name) bool {
+	q = q.fold()
+	for k := len(q); k >= len(curZ3.z.apex); k-- {
+		if matchIn(curSet3, hashOf(q.suffix(k), curZ3.salt, curZ3.iter)) != nil {
+			if k == len(q) {
+				return false
+			}
+			c := coverIn(curSet3, hashOf(q.suffix(k+1), curZ3.salt, curZ3.iter))
+			return c != nil && c.flags&1 == 1
+		}
+	}
+	return false
+}
+
+func execNsec3(f []string) vlib.Res {
+	switch f[1] {
+	case "new":
+		z := parseZone(f[2], f[3], f[4])
+		z3 := &zone3{z: z, salt: vlib.UnHex(f[5]), iter: atoi(f[6]), opted: map[string]bool{}}
+		if f[7] != "-" {
+			z3.optOut = true
+			if f[7] != "+" {
+				for _, p := range strings.Split(f[7], ";") {
+					z3.opted[parseName(p).key()] = true
+				}
+			}
+		}
+		curZ3, curSet3, curRR3 = z3, nil, nil
+		return vlib.Res{Impl: "ring=" + itoa(len(z3.ring()))}
+	case "set":
+		curSet3, curRR3 = nil, nil
+		if f[2] != "-" {
+			for _, p := range strings.Split(f[2], ";") {
+				r := parseRec3(p)
+				curSet3 = append(curSet3, r)
+				curRR3 = append(curRR3, r.rr())
+			}
+		}
+		return vlib.Res{Impl: "n=" + itoa(len(curSet3))}
+	case "prep":
+		signer := parseName(f[2])
+		owners, cls, iter, salt, err := dnssec.VerifC02PrepareNSEC3(curRR3, signer.pres())
+		if err != nil {
+			return vlib.Res{Impl: errStr(err), Tags: "nt"}
+		}
+		hs := make([]string, len(owners))
+		for i, o := range owners {
+			hs[i] = hex.EncodeToString(o)
+		}
+		or := "ok"
+		// one chain only: every usable record carries the ring's tuple and class
+		for _, r := range curSet3 {
+			if usable3(r) && (r.iter != int(iter) || !bytes.Equal(r.salt, salt) || r.cls != cls || !r.parent.fold().eq(signer.fold())) {
+				or = "FAIL sig=nsec3/prepare/mixed-set-accepted"
+			}
+		}
+		return vlib.Res{Impl: fmt.Sprintf("ring=%s cls=%d", strings.Join(hs, ","), cls), Oracle: or, Tags: "nt"}
+	case "nxd", "nod":
+		signer, q, t, c := parseName(f[2]), parseName(f[3]), uint16(atoi(f[4])), uint16(atoi(f[5]))
+		if dnssec.ValidateSigner(signer.pres(), q.pres()) != nil {
+			return vlib.Res{Impl: "notsigner", Oracle: "ok"}
+		}
+		set := dnsutil.FilterRRsToZone(curRR3, signer.pres())
+		var secure bool
+		var err error
+		entry := "nameerror"
+		if f[1] == "nxd" {
+			secure, err = dnssec.VerifyNameErrorForZoneWithWork(question(q, t, c, dns.RcodeNameError), set, signer.pres(), nil)
+		} else {
+			entry = "nodata"
+			secure, err = dnssec.VerifyNODATAForZoneWithWork(question(q, t, c, dns.RcodeSuccess), set, signer.pres(), nil)
+		}
+		res := vlib.Res{Impl: secStr(secure, err), Oracle: "-", Tags: "unjudged"}
+		kind := curZ3.setKind(curSet3)
+		if signer.fold().eq(curZ3.z.apex) && kind != "other" {
+			res.Oracle, res.Tags = "ok", "rejected,"+kind
+			if err == nil {
+				truth, why := curZ3.z.answerClass(q, t)
+				res.Tags = "nt,accepted," + kind + "," + why
+				want := map[string]string{"nxd": "nxdomain", "nod": "nodata"}[f[1]]
+				switch {
+				case kind == "mixed":
+					res.Oracle = fmt.Sprintf("FAIL sig=nsec3/%s/mixed-set-accepted", entry)
+				case c != curZ3.z.cls:
+					res.Oracle = fmt.Sprintf("FAIL sig=nsec3/%s/wrong-class-accepted", entry)
+				case secure && restsOnOptOut(q):
+					res.Oracle = fmt.Sprintf("FAIL sig=nsec3/%s/optout-marked-secure", entry)
+				case secure && truth != want:
+					res.Oracle = fmt.Sprintf("FAIL sig=nsec3/%s/%s-accepted truth=%s", entry, why, truth)
+				case !secure && !restsOnOptOut(q):
+					res.Oracle = fmt.Sprintf("FAIL sig=nsec3/%s/insecure-without-optout", entry)
+				}
+				if !secure {
+					res.Tags += ",optout"
+				}
+			}
+		}
+		return res
+	case "dlg":
+		signer, d := parseName(f[2]), parseName(f[3])
+		set := dnsutil.FilterRRsToZone(curRR3, signer.pres())
+		err := dnssec.VerifyDelegationForZoneWithWork(d.pres(), signer.pres(), set, nil)
+		res := vlib.Res{Impl: errStr(err), Oracle: "-", Tags: "unjudged"}
+		kind := curZ3.setKind(curSet3)
+		if signer.fold().eq(curZ3.z.apex) && kind != "other" {
+			res.Oracle, res.Tags = "ok", "rejected,"+kind
+			if err == nil {
+				res.Tags = "nt,accepted," + kind
+				nd := curZ3.z.find(d.fold())
+				switch {
+				case kind == "mixed":
+					res.Oracle = "FAIL sig=nsec3/delegation/mixed-set-accepted"
+				case nd != nil && nd.types[tDS]:
+					res.Oracle = "FAIL sig=nsec3/delegation/ds-present-accepted"
+				case nd != nil && !nd.isDeleg():
+					res.Oracle = "FAIL sig=nsec3/delegation/not-a-delegation-accepted"
+				case nd == nil && !restsOnOptOut(d):
+					res.Oracle = "FAIL sig=nsec3/delegation/no-owner-no-optout-accepted"
+				}
+			}
+		}
+		return res
+	case "agg":
+		signer, q, t, c := parseName(f[2]), parseName(f[3]), uint16(atoi(f[4])), uint16(atoi(f[5]))
+		dq := dns.Question{Name: q.pres(), Qtype: t, Qclass: c}
+		r1, e1 := dnssec.EvaluateAggressiveNSEC3(dq, signer.pres(), curRR3, nil)
+		res := vlib.Res{Impl: aggResult(r1, e1, curRR3), Oracle: "-", Tags: "unjudged"}
+		kind := curZ3.setKind(curSet3)
+		if signer.fold().eq(curZ3.z.apex) && kind != "other" {
+			res.Oracle, res.Tags = "ok", "rejected,"+kind
+			if e1 == nil {
+				truth, why := curZ3.z.answerClass(q, t)
+				res.Tags = "nt,accepted," + kind + "," + why
+				want := "nodata"
+				if r1.Rcode == dns.RcodeNameError {
+					want = "nxdomain"
+				}
+				switch {
+				case kind != "genuine":
+					res.Oracle = fmt.Sprintf("FAIL sig=agg3/%s/%s-set-accepted", want, kind)
+				case c != curZ3.z.cls:
+					res.Oracle = fmt.Sprintf("FAIL sig=agg3/%s/wrong-class", want)
+				case restsOnOptOut(q):
+					res.Oracle = fmt.Sprintf("FAIL sig=agg3/%s/optout-span-used", want)
+				case truth != want:
+					res.Oracle = fmt.Sprintf("FAIL sig=agg3/%s/%s truth=%s", want, why, truth)
+				case want == "nodata" && !nodataTypeOK(t):
+					res.Oracle = "FAIL sig=agg3/nodata/meta-type"
+				}
+			}
+		}
+		return res
+	}
+	return vlib.Res{Impl: "bad-op"}
+}
+
+// ---- generator ----
+
+func genNsec3Case(r *vlib.R, emit func(string)) int {
+	z := genZone(r)
+	z3 := &zone3{z: z, opted: map[string]bool{}}
+	switch r.Intn(4) {
+	case 0:
+	case 1:
+		z3.salt = r.Bytes(1 + r.Intn(8))
+	default:
+		z3.salt = []byte{0xab, 0xcd}
+	}
+	z3.iter = vlib.Pick(r, []int{0, 0, 0, 1, 2, 5, 10, 150})
+	optSpec := "-"
+	if r.Chance(2, 5) {
+		z3.optOut = true
+		optSpec = "+"
+		var names []string
+		for _, nd := range z.auth() {
+			if nd.isDeleg() && !nd.types[tDS] && r.Chance(2, 3) {
+				z3.opted[nd.n.key()] = true
+				names = append(names, nd.n.String())
+			}
+		}
+		if len(names) > 0 {
+			optSpec = strings.Join(names, ";")
+		}
+	}
+	emit(fmt.Sprintf("h new %s %s %d %s", z.String(), vlib.Hex(z3.salt), z3.iter, optSpec))
+	curZ3 = z3 // the generator needs hashes of the zone it is building cases for
+	ring := z3.ring()
+	cnt := 1
+	for round := 0; round < 2+r.Intn(3); round++ {
+		var set []rec3
+		switch k := r.Intn(10); {
+		case k < 5:
+			set = append(set, ring...)
+		case k < 8:
+			for _, x := range ring {
+				if r.Chance(3, 4) {
+					set = append(set, x)
+				}
+			}
+		case k < 9:
+			set = append(set, vlib.Pick(r, ring))
+		}
+		if r.Chance(1, 10) && len(set) > 0 {
+			set = append(set, vlib.Pick(r, set)) // exact repeat
+		}
+		// strangers
+		if r.Chance(1, 4) && len(ring) > 0 {
+			x := vlib.Pick(r, ring)
+			switch r.Intn(12) {
+			case 0:
+				x.iter = z3.iter + 1
+			case 1:
+				x.salt = append([]byte{0x01}, z3.salt...)
+				x.saltText = hex.EncodeToString(x.salt)
+			case 2:
+				x.cls = 3
+			case 3:
+				x.parent = x.parent.child("sub") // one label too deep (child zone's chain)
+			case 4:
+				if len(z.apex) > 0 {
+					x.parent = z.apex.parent().child(z.apex[0] + "x") // sibling zone
+				}
+			case 5:
+				x.iter = 151 // unusable: skipped by the exact validators
+			case 6:
+				x.alg = 2
+			case 7:
+				x.flags = 2
+			case 8:
+				x.saltBad, x.saltText = true, "zz"
+			case 9:
+				x.ownerHash, x.ownerLab = nil, "nothash"
+			case 10:
+				x.next, x.nextText = nil, "0123"
+			default:
+				x.hashLen = 19
+			}
+			set = append(set, x)
+		}
+		// forged interval (same chain parameters): unjudged, model-vs-code only
+		if r.Chance(1, 10) && len(ring) > 1 {
+			x := vlib.Pick(r, ring)
+			switch r.Intn(3) {
+			case 0:
+				x.next = vlib.Pick(r, ring).ownerHash
+				x.nextText = b32.EncodeToString(x.next)
+			case 1:
+				x.types = []uint16{tA, tNS}
+			default:
+				x.flags ^= 1
+			}
+			set = append(set, x)
+		}
+		for i := len(set) - 1; i > 0; i-- {
+			j := r.Intn(i + 1)
+			set[i], set[j] = set[j], set[i]
+		}
+		if r.Chance(1, 5) {
+			for i := range set {
+				if set[i].ownerHash != nil && r.Bool() {
+					set[i].ownerLab = strings.ToUpper(set[i].ownerLab)
+				}
+			}
+		}
+		emit("h set " + recs3Str(set))
+		curSet3 = set
+		cnt++
+		sg := genSigner(r, z)
+		if r.Chance(1, 3) {
+			emit("h prep " + sg.String())
+			cnt++
+		}
+		for j := 0; j < 2+r.Intn(3); j++ {
+			q := genQuery(r, z)
+			if len(q.wire()) > 200 {
+				continue
+			}
+			if r.Chance(1, 6) {
+				q = flipCase(r, q)
+			}
+			t := vlib.Pick(r, qtypes)
+			c := 1
+			if r.Chance(1, 20) {
+				c = vlib.Pick(r, []int{0, 3, 254, 255})
+			}
+			sg := genSigner(r, z)
+			emit(fmt.Sprintf("h nxd %s %s %d %d %s", sg, q, t, c, hashTable(q, sg)))
+			emit(fmt.Sprintf("h nod %s %s %d %d %s", sg, q, t, c, hashTable(q, sg)))
+			emit(fmt.Sprintf("h agg %s %s %d %d %s", sg, q, t, c, hashTable(q, sg)))
+			cnt += 3
+			if r.Chance(1, 2) {
+				emit(fmt.Sprintf("h dlg %s %s %s", sg, q, hashTable(q, sg)))
+				cnt++
+			}
+		}
+	}
+	return cnt
+}
